@@ -371,6 +371,62 @@ func run(e *core.Env) {
 	}
 	e.Probe("round_trip_ok")
 
+	// ---- the same variants once more, now that the receiver has accepted the genuine frame ----
+	// Whatever the receiver remembers about a frame it accepted (a verified signature, a cipher,
+	// a window position) must not vouch for a changed copy of it: bytes 4..15 (nonce, sequence
+	// number or signing time) in every bit, the other protected positions sampled.
+	{
+		post := 0
+		postBudget := 2500
+		if thorough {
+			postBudget = 8000
+		}
+		per := max(1, postBudget/max(1, len(positions)))
+		for _, i := range positions {
+			n := min(per, 8)
+			if i >= 4 && i < 16 {
+				n = 8
+			}
+			for k := 0; k < n; k++ {
+				bit := k
+				if n < 8 {
+					bit = tp.Intn(8)
+				}
+				mut := append([]byte(nil), wire...)
+				mut[i] ^= 1 << bit
+				var err error
+				var got []byte
+				if e.Guard("panic-on-corrupted-frame", func() { got, err = unsealAt(B.Inst.Builder, sessBA, mut) }) {
+					e.Fail("", "")
+				}
+				post++
+				if err == nil {
+					field := fieldName(i, sbLen, msgLen, authSize)
+					e.Fail("protected-byte-change-accepted-after-the-genuine-frame/"+field,
+						"%s: the genuine frame was accepted; a copy with bit %d of byte %d (%s) flipped then unseals as well (payload equal: %v)", desc, bit, i, field, bytes.Equal(got, payload))
+				}
+			}
+		}
+		// a changed payload under the genuine authentication bytes, stamped later than the genuine frame
+		if !encrypted && msgLen > 0 {
+			mut := append([]byte(nil), wire...)
+			mut[48+1+sbLen+2+tp.Intn(msgLen)] ^= byte(1 + tp.Intn(255))
+			for b := 15; b >= 8; b-- { // count the signing time up by one
+				mut[b]++
+				if mut[b] != 0 {
+					break
+				}
+			}
+			if got, err := unsealAt(B.Inst.Builder, sessBA, mut); err == nil {
+				e.Fail("protected-byte-change-accepted-after-the-genuine-frame/payload+time",
+					"%s: the genuine frame was accepted; a copy with another payload byte and a later signing time unseals as well (payload equal: %v)", desc, bytes.Equal(got, payload))
+			}
+			post++
+		}
+		e.ProbeN("variants_presented_after_the_genuine_frame", post)
+		e.AddEvals(post)
+	}
+
 	// ---- hop-mutable changes never invalidate (fresh frame each) ----
 	nMut := 6
 	for k := 0; k < nMut; k++ {
